@@ -22,9 +22,8 @@ mod names {
 	/// Checks if a class name is valid according to JVMS 4.2.1 (also accepting array class names).
 	pub(super) fn is_valid_class_name(x: &JavaStr) -> bool {
 		if x.starts_with('[') {
-			// TODO: max 255 [ are allowed
-			// TODO: must be a field desc
-			true
+			// must be a field descriptor (this also limits it to at most 255 `[`)
+			is_valid_array_field_descriptor(x)
 		} else {
 			// a list of identifiers split by /
 			// each identifier must be an unqualified name
@@ -35,12 +34,18 @@ mod names {
 	/// Checks if a class name is a valid array class name according to JVMS 4.2.1
 	pub(super) fn is_valid_arr_class_name(x: &JavaStr) -> bool {
 		if x.starts_with('[') {
-			// TODO: max 255 [ are allowed
-			// TODO: must be a field desc
-			true
+			// must be a field descriptor (this also limits it to at most 255 `[`)
+			is_valid_array_field_descriptor(x)
 		} else {
 			false
 		}
+	}
+
+	/// Checks if a string starting with `[` is a field descriptor.
+	fn is_valid_array_field_descriptor(x: &JavaStr) -> bool {
+		// SAFETY: We only use it to attempt parsing it, and don't let it escape.
+		let desc = unsafe { crate::tree::field::FieldDescriptorSlice::from_inner_unchecked(x) };
+		desc.parse().is_ok()
 	}
 
 	/// Checks if a class name is a valid object class name according to JVMS 4.2.1
